@@ -23,6 +23,9 @@ PROTO_SPECS = {
     "group": "<start> ::= (<A:B:req> <B:A:resp>){1,2} <A:B:fin>?\n<req> ::= 'q'\n<resp> ::= 'r'\n<fin> ::= 'f'\n",
     "nest": "<start> ::= <A:B:open> <body> <A:B:close>\n<body> ::= (<A:B:put> | <B:A:get>){,2}\n<open> ::= 'o'\n<close> ::= 'c'\n<put> ::= 'p'\n<get> ::= 'g'\n",
     "same": "<start> ::= <A:B:hello> <B:A:hello> <A:B:bye>?\n<hello> ::= 'h'\n<bye> ::= 'b'\n",
+    # two alternatives that begin with the same factored-out, non-nullable sub-rule (one look-ahead reaches <login> twice)
+    "shared": "<start> ::= <A:B:greet> <sess>\n<sess> ::= <ok> <A:B:cmd>? | <fail> <A:B:bye>\n<ok> ::= <login> <B:A:k>\n<fail> ::= <login> <B:A:f>\n"
+              "<login> ::= <A:B:u> <A:B:p>\n<greet> ::= 'g'\n<cmd> ::= 'c'\n<bye> ::= 'b'\n<k> ::= 'k'\n<f> ::= 'f'\n<u> ::= 'u'\n<p> ::= 'p'\n",
 }
 PARTIES = """
 class A(FandangoParty):
@@ -37,7 +40,7 @@ class B(FandangoParty):
     def __init__(self):
         super().__init__(connection_mode=ConnectionMode.EXTERNAL)
 """
-for _k in ("pingpong", "group", "nest", "same"):
+for _k in ("pingpong", "group", "nest", "same", "shared"):
     PROTO_SPECS[_k] += PARTIES
 PARTIES3 = PARTIES + """
 
